@@ -26,7 +26,7 @@ import corpus
 
 SPEC = dict(
     gen=[],
-    props=['CalmVerif.Props.C09'],
+    props=['CalmVerif.Props.C09', 'CalmVerif.Props.C09C10'],
     drivers=['drv_sm'],
     audit='Audit/C09.lean',
 )
